@@ -10,6 +10,10 @@ func init() {
 	skeletonTargets = append(skeletonTargets,
 		skelTarget{Name: "TaskQueueSet.Stop", File: "pkg/task/queue/queue_set.go", Recv: "TaskQueueSet", Func: "Stop",
 			Fields: []string{"cancel", "Queues"}, Calls: []string{"cancel", "Stop"}},
+		// the cancellable context of the set exists from WithContext on (Model/SetContext: a Stop() that finds the set
+		// empty is not lost); NewNamedQueue (listed by C03) reads it
+		skelTarget{Name: "TaskQueueSet.WithContext", File: "pkg/task/queue/queue_set.go", Recv: "TaskQueueSet", Func: "WithContext",
+			Fields: []string{"ctx", "cancel"}, Calls: []string{"WithCancel"}},
 		skelTarget{Name: "TaskQueueSet.WaitStopWithTimeout", File: "pkg/task/queue/queue_set.go", Recv: "TaskQueueSet", Func: "WaitStopWithTimeout",
 			Fields: []string{"Queues", "Status"}, Calls: []string{"NewTicker", "Stop", "GetStatus"}},
 		skelTarget{Name: "TaskQueue.Stop", File: "pkg/task/queue/task_queue.go", Recv: "TaskQueue", Func: "Stop",
